@@ -16,7 +16,7 @@ SPEC = {
                 "vectors are incomparable (real concurrency); distinct = distinct program hash",
         "assumptions": ["in-memory database backend (MongoDB cannot run offline)", "Go SDK peers only"],
         "parts": [
-            {"name": "random", "test": "TestC01", "checks": [1500, 15000], "shards": [4, 14], "timeout": [900, 7200]},
+            {"name": "random", "test": "TestC01", "checks": [1500, 6000], "shards": [4, 14], "timeout": [900, 7200]},
         ],
     },
     "C02": {
@@ -29,7 +29,7 @@ SPEC = {
                 ">=1 remote change was later applied on a snapshot-fed replica; distinct = distinct program hash",
         "assumptions": ["in-memory database backend", "twin contents compared only when actor ids sort in activation order in both runs (counted as twin_incomparable otherwise)"],
         "parts": [
-            {"name": "twin", "test": "TestC02", "checks": [700, 8000], "shards": [4, 14], "timeout": [900, 7200]},
+            {"name": "twin", "test": "TestC02", "checks": [700, 2500], "shards": [4, 14], "timeout": [900, 7200]},
         ],
     },
     "C03": {
@@ -42,7 +42,7 @@ SPEC = {
                 "snapshot-fed replica (server GC) later applied a remote change; distinct = distinct program hash",
         "assumptions": ["in-memory database backend", "twin contents compared only when actor ids sort in activation order in both runs"],
         "parts": [
-            {"name": "twin", "test": "TestC03", "checks": [600, 8000], "shards": [4, 14], "timeout": [900, 7200]},
+            {"name": "twin", "test": "TestC03", "checks": [600, 2500], "shards": [4, 14], "timeout": [900, 7200]},
         ],
     },
     "C04": {
@@ -56,8 +56,8 @@ SPEC = {
                 "changes by different actors and >2 change pulls (seq) / >=2 requests overlapped in time (par); distinct = distinct program hash",
         "assumptions": ["in-memory database: memdb serialises write transactions, so the doc-push lock is redundant for seq assignment on this backend (MongoDB-only races are out of reach)"],
         "parts": [
-            {"name": "seq", "test": "TestC04", "checks": [1200, 12000], "shards": [4, 14], "timeout": [900, 7200]},
-            {"name": "par", "test": "TestC04Par", "pkg": "c16", "race": True, "checks": [40, 800], "shards": [4, 14], "timeout": [900, 7200]},
+            {"name": "seq", "test": "TestC04", "checks": [1200, 5000], "shards": [4, 14], "timeout": [900, 7200]},
+            {"name": "par", "test": "TestC04Par", "pkg": "c16", "race": True, "checks": [40, 300], "shards": [4, 14], "timeout": [900, 7200]},
         ],
     },
     "C06": {
@@ -71,7 +71,7 @@ SPEC = {
                 "non-trivial = >=1 minVV check and >=1 causality check in a case containing a snapshot response, detach, re-attach or late attach",
         "assumptions": ["presence-only changes carry no clock by design and are skipped", "edits are only generated after Attach"],
         "parts": [
-            {"name": "history", "test": "TestC06", "checks": [1200, 12000], "shards": [4, 14], "timeout": [900, 7200]},
+            {"name": "history", "test": "TestC06", "checks": [1200, 5000], "shards": [4, 14], "timeout": [900, 7200]},
         ],
     },
     "C05": {
@@ -86,7 +86,7 @@ SPEC = {
         "assumptions": ["in-memory database backend", "faults are injected at the Database interface (decorator), one per run",
                         "fault points inside the window of known finding F12 are excluded by construction and counted"],
         "parts": [
-            {"name": "faults", "test": "TestC05", "checks": [60, 500], "shards": [8, 14], "timeout": [900, 7200]},
+            {"name": "faults", "test": "TestC05", "checks": [60, 200], "shards": [8, 14], "timeout": [900, 7200]},
         ],
     },
     "C12": {
@@ -100,7 +100,7 @@ SPEC = {
                 "detach/deactivate/late attach/snapshot pull in the case; distinct = distinct program hash",
         "assumptions": ["the local presence map of a client that asked for presence on a presenceless document is not asserted (outside the property's quantifier)"],
         "parts": [
-            {"name": "random", "test": "TestC12", "checks": [1500, 12000], "shards": [4, 14], "timeout": [900, 7200]},
+            {"name": "random", "test": "TestC12", "checks": [1500, 5000], "shards": [4, 14], "timeout": [900, 7200]},
         ],
     },
     "C10": {
@@ -115,7 +115,7 @@ SPEC = {
                 "a detached-mode compaction; distinct = distinct program hash",
         "assumptions": ["in-memory database backend", "compaction is driven through documents.CompactDocument (the cluster RPC path with the exclusive document lock)"],
         "parts": [
-            {"name": "random", "test": "TestC10", "checks": [1000, 10000], "shards": [4, 14], "timeout": [900, 7200]},
+            {"name": "random", "test": "TestC10", "checks": [1000, 4000], "shards": [4, 14], "timeout": [900, 7200]},
         ],
     },
     "C15": {
@@ -131,7 +131,7 @@ SPEC = {
         "assumptions": ["the full scope named by the property (3 edits per client, 2 undo/redo) is > 1e8 histories and is sampled by the random part, not enumerated"],
         "parts": [
             {"name": "enum", "test": "TestC15Enum", "kind": "enum", "checks": [0, 0], "shards": [6, 14], "timeout": [900, 7200]},
-            {"name": "random", "test": "TestC15", "checks": [800, 8000], "shards": [4, 14], "timeout": [900, 7200]},
+            {"name": "random", "test": "TestC15", "checks": [800, 4000], "shards": [4, 14], "timeout": [900, 7200]},
         ],
     },
     "C19": {
@@ -170,8 +170,8 @@ SPEC = {
                         "the conc part samples schedules; a found failure is replayed by running the case 30 times"],
         "parts": [
             {"name": "enum", "test": "TestC11Enum", "kind": "enum", "checks": [0, 0], "shards": [8, 14], "timeout": [900, 7200]},
-            {"name": "random", "test": "TestC11Random", "checks": [1500, 20000], "shards": [4, 14], "timeout": [900, 7200]},
-            {"name": "conc", "test": "TestC11Conc", "pkg": "c16", "race": True, "checks": [60, 1500], "shards": [4, 12], "timeout": [900, 7200]},
+            {"name": "random", "test": "TestC11Random", "checks": [1500, 8000], "shards": [4, 14], "timeout": [900, 7200]},
+            {"name": "conc", "test": "TestC11Conc", "pkg": "c16", "race": True, "checks": [60, 600], "shards": [4, 12], "timeout": [900, 7200]},
         ],
     },
     "C13": {
@@ -199,7 +199,7 @@ SPEC = {
                 "was asked (and cached) before; non-trivial (webhook) = the same (token, procedure, key) was sent to both projects and their policies differ for it",
         "assumptions": ["in-memory database backend", "the matrix part runs without auth webhooks; the webhook part covers ActivateClient/AttachDocument/DeactivateClient only", "'no credential' resolves to the default project by design (UseDefaultProject) and is treated as one more foreign project"],
         "parts": [
-            {"name": "matrix", "test": "TestC13", "checks": [2500, 40000], "shards": [4, 14], "timeout": [900, 7200]},
+            {"name": "matrix", "test": "TestC13", "checks": [2500, 15000], "shards": [4, 14], "timeout": [900, 7200]},
             {"name": "webhook", "test": "TestC13Webhook", "checks": [150, 3000], "shards": [2, 4], "timeout": [900, 7200]},
         ],
     },
@@ -214,7 +214,7 @@ SPEC = {
                 "build checked in a case with a snapshot pull and a history view or a cache purge/remove; distinct = distinct program hash.",
         "assumptions": ["the MongoDB-side caches (doc/changes caches in front of Mongo) are covered only through the exported, DB-free ChangeStore (part a)"],
         "parts": [
-            {"name": "snapcache", "test": "TestC20Snap", "checks": [600, 8000], "shards": [4, 14], "timeout": [900, 7200]},
+            {"name": "snapcache", "test": "TestC20Snap", "checks": [600, 3000], "shards": [4, 14], "timeout": [900, 7200]},
         ],
     },
 }
